@@ -20,7 +20,11 @@ type attrNode struct {
 	V   string     `json:"v,omitempty"`        // valSpec name (leaf)
 	G   []attrNode `json:"g,omitempty"`        // members (group)
 	IsG bool       `json:"is_group,omitempty"` // group (possibly empty)
+	Ref string     `json:"ref,omitempty"`      // nodes with the same non-empty Ref are ONE attribute object used in several places
 }
+
+// attribute objects shared between several places of one record (see attrNode.Ref); reset by emitRecord
+var sharedAttrObjects = map[string]slog.Attr{}
 
 func qk(s string) string { return strconv.Quote(s) }
 
@@ -57,6 +61,16 @@ func nodesString(ns []attrNode) string {
 }
 
 func buildAttr(n attrNode) slog.Attr {
+	if n.Ref != "" {
+		if a, ok := sharedAttrObjects[n.Ref]; ok {
+			return a
+		}
+		m := n
+		m.Ref = ""
+		a := buildAttr(m)
+		sharedAttrObjects[n.Ref] = a
+		return a
+	}
 	if n.IsG {
 		members := make([]slog.Attr, 0, len(n.G))
 		for _, m := range n.G {
@@ -221,6 +235,7 @@ func emitRecord(rc recCase) (payloads []string, pan string) {
 		slog.VerifNowHook = saveHook
 		slog.VerifSetWidths(low, mmw)
 	}()
+	sharedAttrObjects = map[string]slog.Attr{}
 	args := make([]any, 0, len(rc.Attrs))
 	var pend []c07pending
 	for _, n := range rc.Attrs {
